@@ -12,864 +12,891 @@ Definition show_fres (r : fres) : string :=
   end.
 Definition check (rs : list rune) : string := digest (show_fres (format_res rs)).
 Definition full (rs : list rune) : string := show_fres (format_res rs).
-Eval vm_compute in ("<<<M1677>>>" ++ check (runes_of_ascii "packet metadata {
-    repeat f64 Foo,
-    repeat Logon f32a `
-    `,
-    @calculatedFrom(""1"")
-    repeat uint8 calculatedFrom `u8 x,`,
-    char[] packetx,// packet A { u8 x, }
-    @calculatedFrom(""abc"")
-    Pad @lengthOf(msg_type) `line1
-    line2`,
-    @rightPad(' ')
-    tag `" ++ [233]%N ++ runes_of_ascii "`,
-    @tag(10)
-    u8x @calculatedFrom(""CRC32""),
-    match metadata as msg_type {
-        [""\n"", 0123456789] : options1,
-        ""\n"" : float,
-    },
-}
-
-packet MetaDataX {
-    string string_ `doc`,
-    @rightPad('0')
-    zchar[00] zchar `a\`,
-}
-
-options {
-    leftPad = 0
-    float = 4294967296;
-}// `tick` ""quote"" 'q'
-
-root packet body {
-    @calculatedFrom(""1"")
-    @lengthOf(int)
-    match float as Z9_ {
-        // packet A { u8 x, }
-        // trailing space 
-        42 : x,
-        ""packet"" : matchKey,
-        """ ++ [28040; 24687]%N ++ runes_of_ascii """ : o,
-        255 : float,
-    },
-    @tag(0123456789)
-    match calculatedFrom as trueish {
-        [""packet"", ""`tick`"", """ ++ [233]%N ++ runes_of_ascii "t" ++ [233]%N ++ runes_of_ascii """] : MetaDataX,
-        4294967296 : trueish,
-        3 : i64_,
-        0123456789 : f32a,
-        [
-            7, 10, ""CRC32"", ""x y"", ""\n"",
-            ""CRC32"", ""`tick`""
-        ] : body,
-    },
-    char[1] Foo,
-    @rightPad(' ')
-    @calculatedFrom(""a	b"")
-    repeat string_ {
-        repeat Logon,
-        Z9_ i8i8,
-        match Z9_ as A {
-            [42] : Logon,
-            [
-                ""CRC32"", 1, ""a\""b"", 4294967296, 0,
-                ""\" ++ [233]%N ++ runes_of_ascii """
-            ] : roots,
-            ""a\""b"" : MetaDataX,
-            255 : _x,
-            65535 : rootA,
-        },
-        match _x as Foo {
-            [255, """ ++ [28040; 24687]%N ++ runes_of_ascii """, ""CRC32"", """ ++ [233]%N ++ runes_of_ascii "t" ++ [233]%N ++ runes_of_ascii """, ""abc""] : len,
-            ""a\\"" : Pad,
-            0 : falsey,
-            3 : u128,
-        },// a // b
-    },
-    repeat options1 int `{ , }`,
-}")).
-Eval vm_compute in ("<<<M1418>>>" ++ check (runes_of_ascii "// top
-options {
-    // c1
-    StringPrefixLenType = u16;// c5
-    ArrayPrefixLenType = u32;
-    // c9
-    FixedStringPadFromLeft = true;
-    FixedStringPadChar = '0';
-    // c17
-}
-
-packet Cancel {
-    // c21a
-    // c21b
-}// c22a
-
-// c22b
-packet Party {
-}
-
-// c26
-packet Logon {
-}
-
-packet Ack {
-    // c33a
-    // c33b
-}// c34
-
-packet Logout {
-    // c37a
-    // c37b
-    repeat InSym87 {
-        // c40a
-        // c40b
-        InClordid94 {
-            // c42
-            string clOrdID,
-            // c45
-        },
-        // c47
-        string Px,
-        i16 Qty,// c53
-        repeat InCount71 {
-            repeat Cancel,
-            // c59
-            uint16 Tail,
-            // c62
-            char[2] x,// c67a
-            // c67b
-            repeat string Ref,// c71
-        },
-        Cancel,// c75a
-        // c75b
-    },
-}
-
-// c78
-root packet Order {
-    // c82
-    repeat string tag7,
-    @leftPad(' ')
-    // c90
-    char[3] Px,// c95a
-    // c95b
-    u8 Qty,
-    // c98
-    match Qty as Body {
-        [28, 62] : Logon,
-        // c111a
-        // c111b
-        148 : Ack,
-        // c115a
-        // c115b
-        88 : Party,
-        // c119
-        184 : Cancel,
-        // c123
-    },// c125a
-    // c125b
-    u16 Note @calculatedFrom(""CRC32""),// c131
-}")).
-Eval vm_compute in ("<<<M1823>>>" ++ check (runes_of_ascii "
-
-  // top
-    options  // c0a
-	// c0b
-{
-LittleEndian  // c2
-	  =
-
-true
-    ; 	 // c5
-
-}// c6a
-		// c6b
-  packet 
-  // c7
-
-  Logon // c8a
-// c8b
-  	{
-
-u8 
-x	// c11
-  , } 	 // c13
-	packet 	 // c14
-
-	Logout {
-u16 // c17a
-    // c17b
-reason
-	// c18
-    ,	// c19a
-
-  // c19b
-		}// c20
-root 
-
-    // c21
-	packet  // c22a
-  // c22b
-  Frame 	 // c23a
-	// c23b
-  { 	 // c24a
-      // c24b
-u8
-
-// c25
-	Kind	// c26a
-      // c26b
-,	// c27
-  u8 	 // c28
-
-Kind2
-
-,  
-      // c30
-
-	match
-Kind
-
-    as  // c33
-  Body 
-      // c34
-	{  // c35a
-	  // c35b
-  1	// c36
-
-: 
-      // c37
-  Logon// c38
-, // c39a
-    // c39b
-	[ // c40a
-// c40b
-
-2 	 // c41
-, 
-
-    // c42
-
-3// c43
-  	,
-
-    4 ]
-// c46
-:	// c47
-	Logout 
-    // c48
-	  , // c49a
-  // c49b
-
-  100 // c50
-
-: 
-
-// c51
-  Logon	// c52a
-	// c52b
-
-,  
-  // c53
-  }
-    ,// c55
-    match // c56a
-  // c56b
-    	Kind2 as 
-// c58
-Trailer	// c59a
-    	// c59b
-    	{	// c60
-    0 	 // c61
-    :
-    // c62
-  Logout // c63a
-  	// c63b
-, 
-}  , 	 // c66a
-// c66b
-    }
-")).
-Eval vm_compute in ("<<<M176>>>" ++ check (runes_of_ascii "
-packet i8i8 { @tag( 0 ) int32
-leftPad `it's`
-, repeat char[]Header`crlf
-line`
-, @calculatedFrom( ""\" ++ [233]%N ++ runes_of_ascii """ )/// triple
-repeat
-    uint8 float , @rightPad
-('\x00' ) char[] zchar@lengthOf(
-// a // b
-//x
-leftPad )
-`
-` , Z9_ ,
-@lengthOf(
-x ) match As as
-    tag {	""a	b""  :
-string_ [
-10 , 7 , ""1"" , 255
-,
-3
-    , 42 ,
+Eval vm_compute in ("<<<M317>>>" ++ check (runes_of_ascii "MetaData Logon
+    {
+    char[]u8x , matchKey pack,
+u8 int ``, char[ 007
+    ]
+msg_type ,
+BodyLength o	,string_ crc  `a\`, } options	{
+    //x
+    trueish = int16 Packet
+    = char MetaDataX=
+char[
+//
+// trailing space 
+255 ] // a // b
+;}	root
     //
-    0123456789, """ ++ [128512]%N ++ runes_of_ascii """ ] :x_y_z ,""CRC32""
-: Z9_  , 00
-    // c
-    : Logon
-    ,
-} , @tag(007) o {
-    char
-    Packet
-@lengthOf(
-    //	t
-    repeatCount
-) , } , @lengthOf(
-// " ++ [27880; 37322]%N ++ runes_of_ascii "
-/// triple
-pack
-) float64 rootA `two words`
-    ,	repeat char[] BodyLength ,}
-packet Z9_{ match
-    // packet A { u8 x, }
-    As
-as
-    a1{ //
-0: trueish // `tick` ""quote"" 'q'
-,} ,
-/// triple
-// " ++ [27880; 37322]%N ++ runes_of_ascii "
-} root packet u8x {
-/// triple
-// " ++ [128512]%N ++ runes_of_ascii " emoji
+    packet a1 // packet A { u8 x, }
+{ } root packet // c
+MetaDataX{
+@lengthOf(_x)
 repeat
-string Logon `tab	here` , // " ++ [128512]%N ++ runes_of_ascii " emoji
-}	options { _x
-=
-    ""packet""
-;f32a =007 } packet i8i8 {@calculatedFrom( ""CRC32"" )
-A @lengthOf(
-a1
-)
-, } 	 ")).
-Eval vm_compute in ("<<<M141>>>" ++ check (runes_of_ascii "options // @lengthOf(
-{zchar = char[] Z9_	='0' ;
-} options
-{ asx = char[] }root packet leftPad { T @lengthOf(
-    f32a//
-)
-, } //
+Logon{// " ++ [128512]%N ++ runes_of_ascii " emoji
+o
+a1 , uint64
+    u128 ,  } ,zchar[007] chars
+    `line1
+line2` ,	repeat Header u128`doc`, // " ++ [128512]%N ++ runes_of_ascii " emoji
+@calculatedFrom(""1"")int
+trueish
+, char[0123456789
+    ]
+uint8x,
+i8 int	@lengthOf( msg_type )`line1
+line2`
+,
+    //x
+    @rightPad (
+) repeat f64 Z9_, metadata{ falsey @calculatedFrom(
+""abc""
+) , }, options1 @calculatedFrom( ""\n"" ) ,@calculatedFrom(	""\n"" )  match metadata
+    as Header {[
+    """" ,  ""1"" ] :	Foo //
+, [  ""\n""
+, 10
+,
+// " ++ [27880; 37322]%N ++ runes_of_ascii "
+// c
+""{,}"" ]
+: Logon
+,
+[
+    """"] :
+len
+, ""\n""  :// trailing space 
+msg_type , [ // c
+00 ]
+    : trueish , 10 : u8x, }
+    ,
+    } // " ++ [27880; 37322]%N ++ runes_of_ascii "
 root
+packet
+    BodyLength
+    { char[42
+] body  @calculatedFrom(
+    ""{,}"" ) `tab	here` // trailing space 
+,
+i32
+stringy  @calculatedFrom( """ ++ [28040; 24687]%N ++ runes_of_ascii """ ),  @tag(  0123456789	)
+@rightPad ( )@tag( 00 )  i16 a1 @lengthOf( pack// a // b
+) ,
+    @tag( 10
+)
+@leftPad ('\x00' ) // `tick` ""quote"" 'q'
+@calculatedFrom( ""a\""b"" ) repeat char[] // c
+stringy `
+`	, chars `say ""hi""`,
+@lengthOf(  a1 ) @leftPad( '0'  )
+    match Z9_
+as Header { 00
+    //	t
+    : As ,
+} // " ++ [27880; 37322]%N ++ runes_of_ascii "
+, o @calculatedFrom( """ ++ [128512]%N ++ runes_of_ascii """
+    )
+, @leftPad //	t
+(	)As// trailing space 
+@calculatedFrom( ""// no comment"") ,
+match x_y_z  as
+    BodyLength {
+""x y"" // `tick` ""quote"" 'q'
+:BodyLength
+, """ ++ [28040; 24687]%N ++ runes_of_ascii """  : packetx  , 0 :
+    Header ,
+    ""x y"" : matchKey
+    //	t
+    ,}, } // trailing space ")).
+Eval vm_compute in ("<<<M324>>>" ++ check (runes_of_ascii "MetaData Pad { char[] Packet , f32a i64_
+    `tab	here`
+// c
+// a // b
+,
+} root packet
+    As { @calculatedFrom(""CRC32""	)@calculatedFrom(  ""1""  ) @calculatedFrom( ""// no comment""
+// a // b
+//
+)	As
+As `say ""hi""` , Foo  msg_type , calculatedFrom
+@calculatedFrom( ""\n"" ) , zchar {	zchar[ 7 ] charz // `tick` ""quote"" 'q'
+@calculatedFrom(""x y"" )
+    , Z9_
+    `{ , }` , repeat int { zchar[ 3
+] i8i8
+    @lengthOf( chars )
+,
+match zchar as
+    o {1 : //
+u128	,
+    0
+:
+// trailing space 
 //x
-// @lengthOf(
-packet calculatedFrom {
-u
-    {//	t
-char[] // packet A { u8 x, }
-T `" ++ [233]%N ++ runes_of_ascii "`	,	match stringy /// triple
-as //	t
-chars { [
-    0123456789 ]
-: T ,
+stringy
+, 42
+: charz""x y"": a1 3 : Header ,
+4294967296 : o } , repeat
+Header `two words`, match u8x  as u8x
+{
+[ 10] : pack ,	1 :
+BodyLength
+//
+// " ++ [27880; 37322]%N ++ runes_of_ascii "
+0 : MetaDataX
+,42
+:  calculatedFrom },	} /// triple
+, } , // " ++ [27880; 37322]%N ++ runes_of_ascii "
+}
+// `tick` ""quote"" 'q'
+/// triple
+packet
+    i64_ { }
+    root packet x { Header
+{char[ /// triple
+0 ] _x `// not a comment`
+    ,
+}
+    ,@lengthOf( A
+)uint32 f32a
+@calculatedFrom( ""abc""
+    )
 // `tick` ""quote"" 'q'
 // " ++ [27880; 37322]%N ++ runes_of_ascii "
-}	, uint16 a1 @lengthOf( x) , string
-chars `two words` ,
-} , @calculatedFrom(
-    ""x y"")char[]
-// " ++ [27880; 37322]%N ++ runes_of_ascii "
-// " ++ [128512]%N ++ runes_of_ascii " emoji
-body @lengthOf(
-lengthOf )
-    /// triple
+,
+repeat i16 trueish `u8 x,` ,@rightPad	( ' ' )@calculatedFrom( ""a\\"" ) float,
+    repeat char[ 7
+]zchar,
+    @tag( 10 ) repeat
+    //	t
+    a1 falsey	`say ""hi""`,
+    @lengthOf(
+len )repeat zchar[	00
+    // `tick` ""quote"" 'q'
+    ] uint8x ,}
+MetaData  metadata {
+u8 body
+, }")).
+Eval vm_compute in ("<<<M1565>>>" ++ check (runes_of_ascii "  options
+
+{FixedStringPadFromLeft
+=  true
+	;
+FixedStringPadChar= '0';
+
+}packet
+    Leg	{
+
+InPrice0{
+
+    repeat string
+    clOrdID
+,
+	int16
+msgKind
+,zchar[
+	5 ]	Px
+    , } 
+, i16 f1
     ,
-    @lengthOf(	A	)rootA
-,	@lengthOf(i64_ ) // packet A { u8 x, }
-repeat f32a { lengthOf
-    // " ++ [128512]%N ++ runes_of_ascii " emoji
-    charz // a // b
-`" ++ [28040; 24687; 31867; 22411]%N ++ runes_of_ascii "`, }
-    // packet A { u8 x, }
-    ,
-match tag as
-//x
-//	t
-T { [
-3
-] : falsey , }	,zchar[
-    00
-    ] charz@lengthOf(
-    Pad
-) ,
-@tag( 3	) lengthOf{ i16 As ,
-} ,
-} root
-packet	body{ }
-")).
-Eval vm_compute in ("<<<M1358>>>" ++ check (runes_of_ascii "// top
-options // c0a
-  // c0b
-{ // c1a
-  // c1b
-LittleEndian = false ;
-    // c5
-StringPrefixLenType =
-    // c7
-u16 ; // c9
-} // c10
+    repeat f64
+
+    Side2
+
+,
+	string  Acct ,  }
+
+    packet
+    Cancel
+    {	zchar[ 4 ]	clOrdID 
+, string seqNo
+    , 
+Leg
+, @leftPad ('0'
+)
+	char[11
+
+    ]	OrderId,
+	} 
 packet
-    // c11
-Heartbeat { // c13
-@rightPad // c14
-( // c15a
-  // c15b
-'0' ) // c17a
-  // c17b
-char[ 7 // c19a
-  // c19b
-] seqNo // c21a
-  // c21b
-, // c22a
-  // c22b
-uint64 // c23a
-  // c23b
-Tail // c24a
-  // c24b
-, i16 // c26
-Flags // c27a
-  // c27b
-, u16
-    // c29
-msgKind // c30
-, // c31a
-  // c31b
-}
-    // c32
-root // c33a
-  // c33b
-packet // c34
-Reject
-    // c35
-{ // c36a
-  // c36b
-zchar[ 3 ] // c39a
-  // c39b
-tag7 // c40
-,
-    // c41
-repeat // c42
-Heartbeat // c43a
-  // c43b
-, // c44
-repeat // c45a
-  // c45b
-string
-    // c46
-clOrdID // c47a
-  // c47b
-, // c48
-} // c49
-")).
-Eval vm_compute in ("<<<M1770>>>" ++ check (runes_of_ascii "
-
-  root// c
-  packet 
-asx{ @rightPad(
-' ' )  @lengthOf( int )  @tag(
-
-0
-	) 
-u64
-
-uint8x 
-@calculatedFrom(
-
-    ""packet"" ),
-uint32
-
-i64_ ,
-// c
-	repeat options1 o, 
-match	f32a as/// triple
-	falsey // " ++ [27880; 37322]%N ++ runes_of_ascii "
-{ 
-42 : 
-stringy 10
-	:As  ,	""""
-:  Packet
-	,
-	}
-    , @calculatedFrom( ""it's"" ) 	 // " ++ [128512]%N ++ runes_of_ascii " emoji
-    f64
-a1
-	,@lengthOf( 
-tag
-	)  match 
-roots  as  MetaDataX {	""" ++ [128512]%N ++ runes_of_ascii """
-
-:
-    f32a
-    ,
-
-    ""\n""	:
-
-    As
-	[
-	255 ]
-
-:
-A
-
-    ,}
-	,a1
-
-@calculatedFrom(
-	""abc""
-)  ``,@rightPad	(	)@rightPad (
-
-    '\x00' ) @calculatedFrom(
-""CRC32""
-	)body 
-As  ,
-} root
-
-packet
-packetx {
-	    //x
-//
-repeat
-lengthOf 
-Logon  `" ++ [28040; 24687; 31867; 22411]%N ++ runes_of_ascii "`
-	,	//	t
-      } ")).
-Eval vm_compute in ("<<<M1114>>>" ++ check (runes_of_ascii "// top
-packet
-    // c0
-float
-    // c1
-{
-    // c2
-@rightPad
-    // c3
-(
-    // c4
-)
-    // c5
-rootA
-    // c6
-@lengthOf(
-    // c7
-trueish
-    // c8
-)
-    // c9
-,
-    // c10
-stringy
-    // c11
-@lengthOf(
-    // c12
-matchKey
-    // c13
-)
-    // c14
-,
-    // c15
-char[
-    // c16
-4294967296
-    // c17
-]
-    // c18
-pack
-    // c19
-@lengthOf(
-    // c20
-uint8x
-    // c21
-)
-    // c22
-,
-    // c23
-}
-    // c24
-root
-    // c25
-packet
-    // c26
-trueish
-    // c27
-{
-    // c28
-repeat
-    // c29
-uint64
-    // c30
-u128
-    // c31
-`line1
-line2`
-    // c32
-,
-    // c33
-}
-    // c34
-")).
-Eval vm_compute in ("<<<M1367>>>" ++ check (runes_of_ascii "options {
-    StringPrefixLenType = u8;
-    ArrayPrefixLenType = u8;
-    FixedStringPadFromLeft = false;
-    FixedStringPadChar = ' ';
-}
-packet Ack {
-    char[] tag7,
-}
-packet Reject {
-    InSym61 {
-        repeat Ack,
-        zchar[4] f1,
-    },
-}
-packet Logout {
-    char[4] clOrdID,
-}
-root packet Cancel {
-    @leftPad(' ') char[10] price,
-    u8 x,
-    u32 venue @lengthOf(Body),
-    match x as Body {
-        [92, 175] : Logout,
-        26 : Reject,
-        144 : Ack,
-    },
-    u16 count @calculatedFrom(""CR\
-C32""),
-}
-")).
-Eval vm_compute in ("<<<M340>>>" ++ check (runes_of_ascii "packet leftPad//
-{@rightPad () repeat chars	{crc /// triple
-pack  ,
-} ,
-@calculatedFrom( """ ++ [28040; 24687]%N ++ runes_of_ascii """ )@lengthOf(options1  )@tag( 65535 ) Foo,match
-matchKey
-    as // " ++ [128512]%N ++ runes_of_ascii " emoji
-tag	{
-    // c
-    [ ""{,}"",
-""""
-, ""`tick`"" ,
-3 ,""it's"",  """ ++ [128512]%N ++ runes_of_ascii """	,
-""it's""] :As
-    , [
-/// triple
-//	t
-""x y""]
-    //x
-    :
-chars,""" ++ [233]%N ++ runes_of_ascii "t" ++ [233]%N ++ runes_of_ascii """	:uint8x,4294967296:	packetx
-""// no comment""
-:
-calculatedFrom , }
-,  @calculatedFrom( ""// no comment""// @lengthOf(
-)
-char[// trailing space 
-007 ]	f32a ,} // a // b")).
-Eval vm_compute in ("<<<M1444>>>" ++ check (runes_of_ascii "  options// " ++ [27880; 37322]%N ++ runes_of_ascii "
-
-  {
-
-T
-    =zchar[ 42 ]
-options1
-    = 
-uint8 ;
-lengthOf
-
-= 
-// a // b
-		char[ 4294967296 ]; } packet Z9_
+Quote
 	{
-repeat MetaDataX
-	`crlf
-line`
+repeat
 
-, 
-repeat string 
-x_y_z,  u32
-    x	,// `tick` ""quote"" 'q'
+char[ 4]
+sym
 
-  @tag(
-	// " ++ [128512]%N ++ runes_of_ascii " emoji
-	// " ++ [128512]%N ++ runes_of_ascii " emoji
-
-	00
-    ) repeat
-    i64  Logon	,  u8x
-f32a ,repeat	lengthOf 
-``,
-repeat stringy
-
-Pad
-        // @lengthOf(
-    `
-`	,  repeat
-string_
-    chars `// not a comment` , }
-")).
-Eval vm_compute in ("<<<M1792>>>" ++ check (runes_of_ascii "// top
-MetaData Packet {
-    // c2
-}// c3
-
-packet charz {
-    // c6
-    Foo asx `it's`,// c10
-    @lengthOf(T)
-    // c13
-    @calculatedFrom("""")
-    // c16
-    @calculatedFrom(""x y"")
-    // c19
-    zchar[007] repeatCount @lengthOf(int) `a\`,// c28
-    i8 string_,// c31
-    repeat options1 Pad,// c35
-}// c36
-
-root packet Packet {
-    // c40
-    int8 float `doc`,// c44
-}// c45")).
-Eval vm_compute in ("<<<M110>>>" ++ check (runes_of_ascii "root // trailing space 
-packet
-leftPad { T
-@lengthOf(A
-) `" ++ [233]%N ++ runes_of_ascii "`,
-    Header
-    @lengthOf( As ) // " ++ [27880; 37322]%N ++ runes_of_ascii "
 ,
-string	calculatedFrom `{ , }`
-, @tag( 1) // trailing space 
-u16  x_y_z ,
-@tag( 4294967296
-) x_y_z metadata// " ++ [128512]%N ++ runes_of_ascii " emoji
-,asx { asx `it's`
-    ,} , char[ 65535 ]
-As@lengthOf(
-    Logon ) `a\`
-,@lengthOf(
-Z9_
-    ) string
-BodyLength ,
+
+    f64
+	OrderId
+, repeat Leg,
+	repeat  i64
+f1 
+, int16 Note
+,
+
+    zchar[3 ]
+    count,
+
+}	root  packet Ack
+	{  @leftPad(
+
+    ' ' 
+)char[
+
+    10
+
+    ] sym
+
+,
+
+InPx60
+	{
+Cancel
+
+    , repeat
+	char[1
+
+    ] f1,
+
+    string
+    Tail
+    ,
+    repeat 
+InNote55 
+{ int8  count,	f64
+f1,repeat
+
+    Cancel ,}
+	,
+    char[] tag7 
+, 
+repeat
+
+string
+	msgKind  , } ,
+    u8
+    lastPx ,match
+lastPx
+as
+	Body
+    { 152
+
+    : Quote
+,  173
+:  Cancel ,
+	4:
+Leg, 
+}
+	, u16 Ref @calculatedFrom( 
+""CRC32""	)	, 
+}
+")).
+Eval vm_compute in ("<<<M1458>>>" ++ check (runes_of_ascii "packet pack {
+    @lengthOf(Foo)
+    asx @lengthOf(_x),
+    u8 x_y_z `two words`,
+    repeat zchar[0] roots `
+    `,
+    lengthOf @calculatedFrom(""abc""),
+    @tag(3)
+    @rightPad(' ')
+    @calculatedFrom(""1"")
+    repeat uint64 i64_ `say ""hi""`,
+    @tag(007)
+    match roots as float {
+        ""a	b"" : lengthOf,
+        [
+            1, ""\n"", ""a\""b"", ""\" ++ [233]%N ++ runes_of_ascii """, ""1"",
+            42
+        ] : msg_type,
+        """ ++ [128512]%N ++ runes_of_ascii """ : Foo,
+    },
+    T {
+        match Header as trueish {
+            [
+                0, 3, ""{,}"", ""1"", 00,
+                0123456789, ""// no comment""
+            ] : As,
+        },
+    },
+    repeat char[10] o `
+    `,
+    @calculatedFrom(""`tick`"")
+    repeat crc {
+        repeatCount o,
+        u8x As,
+    },
+}
+
+packet pack {
+    @calculatedFrom(""" ++ [233]%N ++ runes_of_ascii "t" ++ [233]%N ++ runes_of_ascii """)
+    u32 f32a,
+}
+
+MetaData float {
+    u32 options1,
+}
+
+packet f32a {
 }")).
-Eval vm_compute in ("<<<M81>>>" ++ check (runes_of_ascii "root packet o {
-} MetaData uint8x
-    { int64 rootA  ,}
-    MetaData
-As{i32 // packet A { u8 x, }
-chars,	}packet Z9_// trailing space 
+Eval vm_compute in ("<<<M1599>>>" ++ check (runes_of_ascii "  options{StringPrefixLenType  =	u8 
+;ArrayPrefixLenType 
+=
+
+u32	;	FixedStringPadFromLeft
+    =	true
+; FixedStringPadChar
+    = ' '
+
+    ;
+}
+	packet
+	Leg
 {
-@leftPad( )char[]	x_y_z,} packet tag {	@leftPad(
-// " ++ [128512]%N ++ runes_of_ascii " emoji
-// " ++ [27880; 37322]%N ++ runes_of_ascii "
-' '
-    )
-zchar[ 0 // `tick` ""quote"" 'q'
-] rootA @calculatedFrom(
-    ""a\\"" )
-    `tab	here`
-,}")).
-Eval vm_compute in ("<<<M1357>>>" ++ check (runes_of_ascii "options {
+
+}
+	packet Heartbeat { zchar[ 6] msgKind ,  @rightPad
+	(  '0' ) char[	3
+
+    ]	Qty
+,  zchar[
+9
+	] Side2
+	,
+i8 Acct	, 
+}packet
+Logout  {  int8
+
+x, 
+} packet
+    Order {  char[]
+	Acct
+
+    ,
+zchar[ 8 
+]
+count
+
+    ,
+    u32
+    OrderId,
+	uint8 lastPx	,u16 clOrdID
+, zchar[
+7 ]Note ,
+
+    }
+root
+
+    packet
+Reject
+	{ @leftPad(
+
+    ' ' ) char[
+
+8]	Side2, i8 clOrdID
+    ,  repeat
+f32
+
+    x
+	, u32
+lastPx , match
+
+    lastPx
+    as
+Body 
+{[	30
+	,
+
+147
+    ] :
+Heartbeat
+
+    , 134 : Leg	,  183:Logout
+    ,  40
+    : Order	, 
+}
+
+, u16 Ref
+@calculatedFrom(
+    ""CRC32""  )
+
+    , 
+} ")).
+Eval vm_compute in ("<<<M1315>>>" ++ check (runes_of_ascii "// top
+packet // c0
+MDSnapshotZZ // c1a
+  // c1b
+{ // c2
+u8 a // c4
+, // c5a
+  // c5b
+} // c6
+packet OrderACK // c8
+{ // c9a
+  // c9b
+u16 b // c11
+,
+    // c12
+} // c13a
+  // c13b
+packet
+    // c14
+HTTPServerInfo
+    // c15
+{ // c16
+string s
+    // c18
+,
+    // c19
+}
+    // c20
+root // c21a
+  // c21b
+packet // c22
+FIXMsg // c23
+{ u8 // c25a
+  // c25b
+KType // c26a
+  // c26b
+, // c27a
+  // c27b
+MDSnapshotZZ
+    // c28
+, // c29a
+  // c29b
+repeat
+    // c30
+OrderACK , // c32a
+  // c32b
+match // c33
+KType as // c35a
+  // c35b
+Body // c36
+{
+    // c37
+1 :
+    // c39
+HTTPServerInfo , 2 // c42
+:
+    // c43
+OrderACK
+    // c44
+, } // c46a
+  // c46b
+,
+    // c47
+} // c48a
+  // c48b
+")).
+Eval vm_compute in ("<<<M342>>>" ++ check (runes_of_ascii "root packet Z9_	{  repeat i8i8 int`// not a comment`
+,	uint8x
+    // c
+    , f64 i8i8  `tab	here` ,@tag(
+3 ) @tag( 3 ) @tag( /// triple
+10
+// trailing space 
+// trailing space 
+) repeat int{ MetaDataX // " ++ [27880; 37322]%N ++ runes_of_ascii "
+,} , @tag( 10
+    ) int8
+    pack@lengthOf(x
+    ), Logon ,	@tag( 00
+) repeat
+rootA
+uint8x ,  @calculatedFrom( ""\n"" // a // b
+) // `tick` ""quote"" 'q'
+@lengthOf( len )
+// @lengthOf(
+// `tick` ""quote"" 'q'
+BodyLength  { matchKey f32a
+//x
+// `tick` ""quote"" 'q'
+`say ""hi""` ,} ,  char[] leftPad `{ , }` ,
+@lengthOf( float )match repeatCount as	o { 255 : matchKey ,
+    // " ++ [128512]%N ++ runes_of_ascii " emoji
+    00:	A 007 :
+    options1 } , }
+")).
+Eval vm_compute in ("<<<M1345>>>" ++ check (runes_of_ascii "options {
     LittleEndian = false;
-    StringPrefixLenType = u16;
+    ArrayPrefixLenType = u8;
+    FixedStringPadFromLeft = true;
+    FixedStringPadChar = '0';
 }
 packet Heartbeat {
-    @rightPad('0') char[7] seqNo,
-    uint64 Tail,
-    i16 Flags,
-    u16 msgKind,
+    string lastPx,
+    uint8 Qty,
+    i64 Acct,
+    char[4] Ref,
 }
-root packet Reject {
-    zchar[3] tag7,
-    repeat Heartbeat,
-    repeat string clOrdID,
+packet Fill {
+    uint8 Ref,
+    Heartbeat,
+    f32 OrderId,
+    repeat f32 x,
+}
+root packet Order {
+    zchar[2] OrderId,
+    zchar[2] Acct,
+    zchar[1] Note,
+    zchar[9] Qty,
+    string price,
+    string tag7,
+    u32 x,
+    match x as Body {
+        123 : Fill,
+        112 : Heartbeat,
+    },
+    u32 seqNo @calculatedFrom(""CRC32""),
 }
 ")).
-Eval vm_compute in ("<<<M1711>>>" ++ check (runes_of_ascii "
-packet	lengthOf
-{ 
-}
-root packet	leftPad
-{	zchar[ 00 	 // a // b
-  ] Foo`` 	 // c
-  ,
-    @calculatedFrom( ""1""  ) 
-@leftPad
-(
+Eval vm_compute in ("<<<M1351>>>" ++ check (runes_of_ascii "
+options
+{ArrayPrefixLenType=
 
-' ' 
-	    // trailing space 
-  	// " ++ [27880; 37322]%N ++ runes_of_ascii "
-	  )  @leftPad( ' '
+u64
+
+    ; 
+FixedStringPadFromLeft =
+
+    true ; 
+FixedStringPadChar 
+=
+'0' ;
+    }
+
+packet Quote{  }packet
+Ack
+
+{
+    repeat
+InNote66{  u8 pad0  ,
+
+    },	} packet	Reject  {
+}  root
+packet Order{ 
+Quote , repeat Reject ,
+
+string venue
+	,
+string seqNo 
+,
+uint32
+    Ref ,
+u16 lastPx, 
+u32
+    clOrdID	@lengthOf(
+Body
+) ,match lastPx as Body{ 190
+: 
+Reject
+
+    ,
+	186 :
+    Quote
+,
+
+22 
+:Ack , } ,
+u16 Flags
+@calculatedFrom( ""CRC32""	) ,	}
+")).
+Eval vm_compute in ("<<<M140>>>" ++ check (runes_of_ascii "
+root packet int{	repeat
+    float tag , char[] roots
+, @lengthOf( repeatCount ) @lengthOf( // packet A { u8 x, }
+rootA)
+uint16 o
+    `tab	here` ,
+    //	t
+    i16 Pad `line1
+line2` , Pad{match Pad as
+    _x
+{ [00]
+:
+    Z9_
+, } ,} , repeat zchar calculatedFrom`a\` ,	f64 // @lengthOf(
+charz
+    //x
+    ,Pad
+    Foo,@calculatedFrom(
+    """ ++ [28040; 24687]%N ++ runes_of_ascii """ )
+    charz
+    @lengthOf( charz ), @lengthOf(
+    rootA ) match o
+as body {00 :
+x_y_z// " ++ [128512]%N ++ runes_of_ascii " emoji
+} ,}
+")).
+Eval vm_compute in ("<<<M1870>>>" ++ check (runes_of_ascii "packet Header {
+    match roots as packetx {
+        // `tick` ""quote"" 'q'
+        [""" ++ [28040; 24687]%N ++ runes_of_ascii """, 0123456789] : packetx,
+        //
+        // c
+        4294967296 : Logon,
+        [""\n"", ""x y"", ""packet"", ""packet""] : i8i8,
+        42 : Foo,
+    },//	t
+    @calculatedFrom(""x y"")
+    f64 Logon,
+}
+
+options {
+    // " ++ [128512]%N ++ runes_of_ascii " emoji
+    chars = ' ';
+    repeatCount = """ ++ [233]%N ++ runes_of_ascii "t" ++ [233]%N ++ runes_of_ascii """
+    x = ""\n"";
+    calculatedFrom = ""`tick`"";
+}")).
+Eval vm_compute in ("<<<M235>>>" ++ check (runes_of_ascii "packet crc
+// a // b
+//x
+{	u128
+    packetx , // " ++ [128512]%N ++ runes_of_ascii " emoji
+match roots	as
+    //
+    falsey
+{ 0123456789 // a // b
+: Header ""packet""// a // b
+: // a // b
+Z9_	3 : A ,
+// trailing space 
+// a // b
+""a	b""  : roots 10
+:  _x
+, } , @tag( 255// a // b
+) match
+calculatedFrom  as	o {
+    255 : string_ """ ++ [28040; 24687]%N ++ runes_of_ascii """ : i64_
+,	} , }MetaData
+T
+{ float64 u	,} packet Pad { /// triple
+}
+")).
+Eval vm_compute in ("<<<M1722>>>" ++ check (runes_of_ascii "options  {
+	LittleEndian	=  true ;
+    }  packet
+
+    Logon
+	{
+u8 
+x,}
+
+    packet
+
+Logout 
+{
+	u16 reason,
+}root
+    packet
+    Frame
+{
+
+    u8	Kind
+
+    ,
+u8	Kind2
+
+    ,  match Kind
+as
+Body 
+{
+
+    1
+: Logon  , [ 
+2,  3	, 
+4	]
+	:	Logout
+, 100 :
+
+Logon
+    , }
+,match  Kind2
+
+    as Trailer {0
+
+:
+Logout , },	}")).
+Eval vm_compute in ("<<<M1277>>>" ++ check (runes_of_ascii "// top
+options
+    // c0
+{
+    // c1
+LittleEndian // c2
+=
+    // c3
+true
+    // c4
+;
+    // c5
+}
+    // c6
+root // c7a
+  // c7b
+packet P // c9a
+  // c9b
+{ u16
+    // c11
+a // c12
+, // c13
+u32 // c14a
+  // c14b
+Sum
+    // c15
+@calculatedFrom( ""CRC32"" ) // c18a
+  // c18b
+,
+    // c19
+} // c20a
+  // c20b
+")).
+Eval vm_compute in ("<<<M1735>>>" ++ check (runes_of_ascii "MetaData 	 //	t
+
+	x  { }
+	packet rootA
+
+    //x
+
+//	t
+  	{
+
+    i64 As
+    //x
+    	// @lengthOf(
+
+  @lengthOf(
+A
+
 )
 
-    repeat
-u8  options1
-    , }
+`// not a comment`
 
+    , 
+}options 
+{ asx 
+=	string
+	;
+i8i8 = zchar[ 0123456789
+
+] ;
+
+Foo
+
+    =
+    10
+
+    ; As
+
+    =
+true
+
+    ;}
 ")).
-Eval vm_compute in ("<<<M318>>>" ++ check (runes_of_ascii "options {Z9_ =// trailing space 
-""packet"" ;float = false
-; A =
-' ' }
-    // c
-    MetaData pack
-{ zchar[
-3] leftPad
-,zchar
-    falsey `it's` , char[] repeatCount ,char[ 65535 // " ++ [128512]%N ++ runes_of_ascii " emoji
-] Z9_, }
-//	t
+Eval vm_compute in ("<<<M1666>>>" ++ check (runes_of_ascii "packet body {
+    @lengthOf(T)
+    @lengthOf(int)
+    @leftPad('\x00')
+    asx len,
+    repeat zchar[3] int `" ++ [28040; 24687; 31867; 22411]%N ++ runes_of_ascii "`,
+    @lengthOf(options1)
+    match x as leftPad {
+        7 : x_y_z,
+        65535 : u128,
+        42 : x,
+    },//
+}")).
+Eval vm_compute in ("<<<M1945>>>" ++ check (runes_of_ascii "packet
+
+    Logon
+{ string user
+
+    ,
+}
+root 
+packet
+	Frame {
+u8
+K	,	match
+
+K
+as
+	Body
+	{1
+: Logon
+,
+    2  :Logout  ,  }  ,
+	Tail , }
+
+packet 
+Logout{ 
+u16 
+reason
+,}
+packet
+Tail
+
+{
+	u32 crc
+, }
 ")).
-Eval vm_compute in ("<<<M1499>>>" ++ check (runes_of_ascii "packet A {
+Eval vm_compute in ("<<<M1325>>>" ++ check (runes_of_ascii "
+root	packet
+	Frame { u8
+    K , 
+Logon
+	first  ,
+match
+
+    K 
+as
+Body{1 : Logon,
+    2 :
+Logout  ,
+	}	,
+} 
+packet
+Logon
+	{
+string user ,
+} packet
+Logout
+
+{ u16 
+reason , }")).
+Eval vm_compute in ("<<<M1256>>>" ++ check (runes_of_ascii "// top
+root // c0
+packet P // c2
+{ // c3
+hdr
+    // c4
+{
+    // c5
+u8 // c6
+a // c7a
+  // c7b
+,
+    // c8
+} , // c10
+u8 // c11
+x // c12a
+  // c12b
+, }
+    // c14
+")).
+Eval vm_compute in ("<<<M1888>>>" ++ check (runes_of_ascii "packet A {
     match k as n {
         [
-            ""a"", ""bb"", ""c c"", ""d"", ""e"",
-            ""f"", ""g"", ""h"", ""i"", ""j"",
-            ""k"", ""l""
+            1, 22, 007, 4, 5,
+            66, 7, 8, 9, 10,
+            11, 12
         ] : B,
         2 : C,
     },
 }")).
-Eval vm_compute in ("<<<M73>>>" ++ check (runes_of_ascii "root
-    packet As { //
-char	charz @lengthOf( packetx
-) `{ , }`,//
-char[0123456789
-]
-MetaDataX
-// " ++ [27880; 37322]%N ++ runes_of_ascii "
-// `tick` ""quote"" 'q'
-`it's` , zchar[
-    7]o `u8 x,`
-, }")).
-Eval vm_compute in ("<<<M55>>>" ++ check (runes_of_ascii "MetaData x_y_z
-//x
-//x
-{ int32
-    o
-,zchar[
-65535  ]Packet , i64_ o , i64 o`
-` , } options
-{ x =
-//x
-/// triple
-u8;
-// " ++ [27880; 37322]%N ++ runes_of_ascii "
-// a // b
-} // trailing space ")).
-Eval vm_compute in ("<<<M496>>>" ++ check (runes_of_ascii "packet uint8x
+Eval vm_compute in ("<<<M471>>>" ++ check (runes_of_ascii "packet uint8x
 { match pack
     as msg_type	{
     0123456789 :	float
@@ -877,12 +904,12 @@ Eval vm_compute in ("<<<M496>>>" ++ check (runes_of_ascii "packet uint8x
 ,
 } packet //	t
 a1
-    { } options {packetx
-    = = '\x00'	; u128= ""a	b""  ; }
+    { { } options {packetx
+    = '\x00'	; u128= ""a	b""  ; }
 ")).
-Eval vm_compute in ("<<<M417>>>" ++ check (runes_of_ascii "packet uint8x
-{ match pack
-    msg_type as	{
+Eval vm_compute in ("<<<M397>>>" ++ check (runes_of_ascii "packet {
+uint8x match pack
+    as msg_type	{
     0123456789 :	float
 }
 ,
@@ -891,81 +918,34 @@ a1
     { } options {packetx
     = '\x00'	; u128= ""a	b""  ; }
 ")).
-Eval vm_compute in ("<<<M425>>>" ++ check (runes_of_ascii "packet uint8x
-{ match pack
-    as msg_type	
-    0123456789 :	float
-}
-,
-} packet //	t
-a1
-    { } options {packetx
-    = '\x00'	; u128= ""a	b""  ; }
+Eval vm_compute in ("<<<M1241>>>" ++ check (runes_of_ascii "// top
+root
+    // c0
+packet // c1
+P // c2a
+  // c2b
+{ // c3
+char
+    // c4
+c // c5a
+  // c5b
+, // c6a
+  // c6b
+u8
+    // c7
+x // c8
+, // c9
+} // c10
 ")).
-Eval vm_compute in ("<<<M1789>>>" ++ check (runes_of_ascii "
-
-  packet 
-A {  match
-k
-	as n{
-	[ ""a""
-
-, 22
-
-,
-""c c""  ,
-	4
-,
-""e""  ,
-	66
-,
-
-""g""	,
-8
-	,
-	""i""
-	,
-10,
-
-    ""k""
-	,
-12
-]
-    :B
-	, 2
-
-: C },
-
-}
-")).
-Eval vm_compute in ("<<<M551>>>" ++ check (runes_of_ascii "packet uint8x
-{ match pack
-    as " ++ [21517; 23383]%N ++ runes_of_ascii "	{
-    0123456789 :	float
-}
-,
-} packet //	t
-a1
-    { } options {packetx
-    = '\x00'	; u128= ""a	b""  ; }
-")).
-Eval vm_compute in ("<<<M663>>>" ++ check (runes_of_ascii "// @lengthOf(
+Eval vm_compute in ("<<<M652>>>" ++ check (runes_of_ascii "// @lengthOf(
 packet i8i8 { u128 o , }
 options { MetaDataX = true;
     BodyLength =""packet"" x_y_z= 007
-crc //x
-= ""abc"" ;
-    msg_type =
-i16 ")).
-Eval vm_compute in ("<<<M686>>>" ++ check (runes_of_ascii "// @lengthOf(
-packet i8i8 { u128 o , }
-options { f64 = true;
-    BodyLength =""packet"" x_y_z= 007
-crc //x
+crc crc //x
 = ""abc"" ;
     msg_type =
 i16 }")).
-Eval vm_compute in ("<<<M514>>>" ++ check (runes_of_ascii "packet uint8x
+Eval vm_compute in ("<<<M395>>>" ++ check (runes_of_ascii "packet 
 { match pack
     as msg_type	{
     0123456789 :	float
@@ -974,175 +954,201 @@ Eval vm_compute in ("<<<M514>>>" ++ check (runes_of_ascii "packet uint8x
 } packet //	t
 a1
     { } options {packetx
-    = '\x00'	;")).
-Eval vm_compute in ("<<<M504>>>" ++ check (runes_of_ascii "packet uint8x
-{ match pack
-    as msg_type	{
-    0123456789 :	float
-}
-,
-} packet //	t
-a1
-    { } options {packetx
-    =")).
-Eval vm_compute in ("<<<M1150>>>" ++ check (runes_of_ascii "MetaData leftPad { chars
-// c
-MetaDataX , } packet repeatCount { char[ 255 ] uint8x `" ++ [233]%N ++ runes_of_ascii "` , } MetaData pack { As Foo , }")).
-Eval vm_compute in ("<<<M1182>>>" ++ check (runes_of_ascii "MetaData leftPad { chars MetaDataX , } packet repeatCount { char[ 255 ] uint8x `" ++ [233]%N ++ runes_of_ascii "` , } MetaData pack {
-// c
-As Foo , }")).
-Eval vm_compute in ("<<<M136>>>" ++ check (runes_of_ascii "// a // b
-options { // " ++ [128512]%N ++ runes_of_ascii " emoji
-calculatedFrom=
-'\x00'	; BodyLength = true ;asx // packet A { u8 x, }
-= true }")).
-Eval vm_compute in ("<<<M955>>>" ++ check (runes_of_ascii "packet A {
-    u16 len @lengthOf(body) `
-x`,
-    u32 crc @calculatedFrom(""CRC32"") `
-x`,
-    string body,
+    = '\x00'	; u128= ""a	b""  ; }
+")).
+Eval vm_compute in ("<<<M1585>>>" ++ check (runes_of_ascii "MetaData falsey {
+    o i8i8,
+    char[] pack,
+    float32 lengthOf,
+    len BodyLength,
+    BodyLength o,
+    stringy u128 `crlf
+    line`,
 }")).
-Eval vm_compute in ("<<<M1317>>>" ++ check (runes_of_ascii "packet FooBar {
+Eval vm_compute in ("<<<M524>>>" ++ check (runes_of_ascii "packet uint8x
+{ match pack
+    as msg_type	{
+    0123456789 :	float
+}
+,
+} packet //	t
+a1
+    { } options {packetx
+    = '\x00'	; u128=")).
+Eval vm_compute in ("<<<M144>>>" ++ check (runes_of_ascii "  MetaData falsey {o i8i8
+,char[]
+pack  ,
+float32 lengthOf , len //x
+BodyLength, BodyLength o
+, stringy  u128	`crlf
+line` , } 	 ")).
+Eval vm_compute in ("<<<M343>>>" ++ check (runes_of_ascii "packet Header { repeat char[  0123456789 ]BodyLength`" ++ [28040; 24687; 31867; 22411]%N ++ runes_of_ascii "`/// triple
+, zchar[ 3
+    ] chars
+    ,// trailing space 
+A, } //")).
+Eval vm_compute in ("<<<M1145>>>" ++ check (runes_of_ascii "MetaData leftPad // c
+{ chars MetaDataX , } packet repeatCount { char[ 255 ] uint8x `" ++ [233]%N ++ runes_of_ascii "` , } MetaData pack { As Foo , }")).
+Eval vm_compute in ("<<<M1177>>>" ++ check (runes_of_ascii "MetaData leftPad { chars MetaDataX , } packet repeatCount { char[ 255 ] uint8x `" ++ [233]%N ++ runes_of_ascii "` , } MetaData // c
+pack { As Foo , }")).
+Eval vm_compute in ("<<<M893>>>" ++ check (runes_of_ascii "packet A {
+  match k as n {
+    [""a"", ""bb"", ""c c"", ""d"", ""e"", ""f"", ""g"", ""h"", ""i"", ""j"", ""k""] : B,
+    2 : C
+  },
+}")).
+Eval vm_compute in ("<<<M908>>>" ++ check (runes_of_ascii "packet A {
+  match k as n {
+    [1, ""bb"", 007, ""d"", 5, ""f"", 7, ""h"", 9, ""j"", 11, ""l""] : B,
+    2 : C
+  },
+}")).
+Eval vm_compute in ("<<<M1814>>>" ++ check (runes_of_ascii "packet FooBar {
     u8 a,
 }
+
 packet foo_bar {
     u16 b,
 }
+
 root packet R {
     FooBar,
     foo_bar,
-}
-")).
-Eval vm_compute in ("<<<M258>>>" ++ check (runes_of_ascii "packet
-    metadata{ u32 // `tick` ""quote"" 'q'
-Packet `say ""hi""`
-,
-    // trailing space 
-    }")).
-Eval vm_compute in ("<<<M863>>>" ++ check (runes_of_ascii "packet A {
+}")).
+Eval vm_compute in ("<<<M904>>>" ++ check (runes_of_ascii "packet A {
   match k as n {
-    [""a"", ""bb"", 007, ""d"", ""e"", 66, ""g"", ""h""] : B
+    [1, 22, 007, 4, 5, 66, 7, 8, 9, 10, 11, 12] : B,
     2 : C
   },
 }")).
-Eval vm_compute in ("<<<M229>>>" ++ check (runes_of_ascii "// a // b
-options{
-Foo
-= '\x00'
-    pack
-= zchar[ 65535]
-// " ++ [128512]%N ++ runes_of_ascii " emoji
-//x
-;	int = ""\n"" ;	}
-")).
-Eval vm_compute in ("<<<M856>>>" ++ check (runes_of_ascii "packet A {
+Eval vm_compute in ("<<<M565>>>" ++ check (runes_of_ascii "
+packet
+    asx true match u128 as lengthOf
+{
+//	t
+// `tick` ""quote"" 'q'
+255 : x ,
+    } ,	}")).
+Eval vm_compute in ("<<<M629>>>" ++ check (runes_of_ascii "
+packet
+    asx {match u128 as lengthOf
+{
+//	t
+// `tick` ""quote"" 'q'
+255 : x ,
+    } ~ ,	}")).
+Eval vm_compute in ("<<<M589>>>" ++ check (runes_of_ascii "
+packet
+    asx {match u128 as lengthOf
+255
+//	t
+// `tick` ""quote"" 'q'
+{ : x ,
+    } ,	}")).
+Eval vm_compute in ("<<<M643>>>" ++ check (runes_of_ascii "
+packet
+    asx {match x" ++ [178]%N ++ runes_of_ascii " as lengthOf
+{
+//	t
+// `tick` ""quote"" 'q'
+255 : x ,
+    } ,	}")).
+Eval vm_compute in ("<<<M861>>>" ++ check (runes_of_ascii "packet A {
   match k as n {
-    [1, ""bb"", 007, ""d"", 5, ""f"", 7, ""h""] : B,
+    [1, 22, ""c c"", 4, 5, ""f"", 7, 8] : B
     2 : C
   },
 }")).
-Eval vm_compute in ("<<<M829>>>" ++ check (runes_of_ascii "packet A {
+Eval vm_compute in ("<<<M1094>>>" ++ check (runes_of_ascii "packet A { u16 // a
+ len // b
+ @lengthOf( // c
+ body // d
+ ) // e
+ `d` // f
+ , }")).
+Eval vm_compute in ("<<<M1584>>>" ++ check (runes_of_ascii "  packet
+
+    body
+{
+i32
+
+    f32a `{ , }`// c
+  ,
+
+    }
+options {
+
+}")).
+Eval vm_compute in ("<<<M789>>>" ++ check (runes_of_ascii "packet A {
   match k as n {
-    [""a"", ""bb"", ""c c"", ""d"", ""e"", ""f""] : B
+    [""a"", ""bb"", ""c c""] : B,
     2 : C
   },
 }")).
-Eval vm_compute in ("<<<M966>>>" ++ check (runes_of_ascii "packet A {
-    u32 crc @calculatedFrom(""x\
-y""),
-    @calculatedFrom(""x\
-y"") u8 y,
+Eval vm_compute in ("<<<M739>>>" ++ check (runes_of_ascii "zchar[ i64 @calculatedFrom( match false ) Header char[ @lengthOf( :")).
+Eval vm_compute in ("<<<M1473>>>" ++ check (runes_of_ascii "MetaData M {
+    u8 x `a
+    
+    b`,
+    T t `a
+    
+    b`,
 }")).
-Eval vm_compute in ("<<<M1252>>>" ++ check (runes_of_ascii "packet Inner {
-    u8 a,
-}
-root packet P {
-    repeat Inner items,
+Eval vm_compute in ("<<<M1255>>>" ++ check (runes_of_ascii "root packet P {
+    hdr {
+        u8 a,
+    },
     u8 x,
 }
 ")).
-Eval vm_compute in ("<<<M345>>>" ++ check (runes_of_ascii "
-options
-{ } // " ++ [128512]%N ++ runes_of_ascii " emoji
-options { float // `tick` ""quote"" 'q'
-=	65535 }
+Eval vm_compute in ("<<<M786>>>" ++ check (runes_of_ascii "packet A { Inner { match k as n { [1,22] : B, }, }, }")).
+Eval vm_compute in ("<<<M1217>>>" ++ check (runes_of_ascii "packet body { i32 f32a `{ , }` , } options { // c
+}")).
+Eval vm_compute in ("<<<M233>>>" ++ check (runes_of_ascii "MetaData _x { i64 u128	, Packet Header, } 	 ")).
+Eval vm_compute in ("<<<M1537>>>" ++ check (runes_of_ascii "options
+
+    { u8x
+	=
+    ""packet"" 
+;	}")).
+Eval vm_compute in ("<<<M1838>>>" ++ check (runes_of_ascii "  packet
+
+    A { } 
+      // c" ++ [8239]%N ++ runes_of_ascii "
 ")).
-Eval vm_compute in ("<<<M42>>>" ++ check (runes_of_ascii "
-packet roots
-    { len leftPad `// not a comment`	,} packet packetx{}")).
-Eval vm_compute in ("<<<M942>>>" ++ check (runes_of_ascii "packet A {
-    B b `a
-
-b`,
-    B `a
-
-b`,
-    repeat B bs `a
-
-b`,
+Eval vm_compute in ("<<<M1284>>>" ++ check (runes_of_ascii "root packet P {
+    string s,
+}
+")).
+Eval vm_compute in ("<<<M1018>>>" ++ check (runes_of_ascii "packet A {
+ u8 x `d" ++ [8233]%N ++ runes_of_ascii "`, // c" ++ [8233]%N ++ runes_of_ascii "
 }")).
-Eval vm_compute in ("<<<M204>>>" ++ check (runes_of_ascii "  options {// " ++ [128512]%N ++ runes_of_ascii " emoji
-Packet =// `tick` ""quote"" 'q'
-char[3 ]}")).
-Eval vm_compute in ("<<<M799>>>" ++ check (runes_of_ascii "packet A { Inner { match k as n { [1,22,007] : B, }, }, }")).
-Eval vm_compute in ("<<<M1513>>>" ++ check (runes_of_ascii "packet A {
-    u8 x `a
-            b
-          c`,
-}")).
-Eval vm_compute in ("<<<M1469>>>" ++ check (runes_of_ascii "
+Eval vm_compute in ("<<<M1691>>>" ++ check (runes_of_ascii "// c" ++ [12288]%N ++ runes_of_ascii "
+    	packet
+A
+	{  }
+
+")).
+Eval vm_compute in ("<<<M576>>>" ++ check (runes_of_ascii "
 packet
-
-    A { u8
-    x `d" ++ [8239]%N ++ runes_of_ascii "`
-, 	 // c" ++ [8239]%N ++ runes_of_ascii "
-    }
-
-")).
-Eval vm_compute in ("<<<M434>>>" ++ check (runes_of_ascii "packet uint8x
-{ match pack
-    as msg_type	{")).
-Eval vm_compute in ("<<<M1767>>>" ++ check (runes_of_ascii "packet MetaDataX {
-    i16 u128 `" ++ [233]%N ++ runes_of_ascii "`,//x
-}")).
-Eval vm_compute in ("<<<M200>>>" ++ check (runes_of_ascii "options {
-options1 =
-    ' ' ;
+    asx {match")).
+Eval vm_compute in ("<<<M211>>>" ++ check (runes_of_ascii "MetaData
+roots {
 }
 
 ")).
-Eval vm_compute in ("<<<M1953>>>" ++ check (runes_of_ascii "
+Eval vm_compute in ("<<<M986>>>" ++ check (runes_of_ascii "packet A {
+}
+// c" ++ [160]%N)).
+Eval vm_compute in ("<<<M1225>>>" ++ check (runes_of_ascii "
+// c
+packet x { }")).
+Eval vm_compute in ("<<<M1231>>>" ++ check (runes_of_ascii "packet x {
+// c
+}")).
+Eval vm_compute in ("<<<M1762>>>" ++ check (runes_of_ascii "
 
-  packet
-A
-
-{
-} 
-
-    // c" ++ [8202]%N ++ runes_of_ascii "
+  // c" ++ [8287]%N ++ runes_of_ascii "
  
 ")).
-Eval vm_compute in ("<<<M1416>>>" ++ check (runes_of_ascii "// c" ++ [65279]%N ++ runes_of_ascii "
-		packet A
-    {
-    }
-")).
-Eval vm_compute in ("<<<M217>>>" ++ check (runes_of_ascii "root	packet falsey
-{
-}
-")).
-Eval vm_compute in ("<<<M295>>>" ++ check (runes_of_ascii "root  packet
-u128 { }")).
-Eval vm_compute in ("<<<M1042>>>" ++ check (runes_of_ascii "// c 	
-packet A {
-}")).
-Eval vm_compute in ("<<<M1011>>>" ++ check (runes_of_ascii "packet A {
-}
-// c" ++ [8232]%N)).
-Eval vm_compute in ("<<<M979>>>" ++ check (runes_of_ascii "packet A {
-}// c" ++ [12288]%N)).
-Eval vm_compute in ("<<<M1575>>>" ++ check (runes_of_ascii "MetaData tag {
-}")).
-Eval vm_compute in ("<<<M750>>>" ++ check (runes_of_ascii "uk%W,3^r>l")).
-Eval vm_compute in ("<<<M1496>>>" ++ check (runes_of_ascii "// " ++ [27880; 37322]%N)).
+Eval vm_compute in ("<<<M1035>>>" ++ check (runes_of_ascii "// c" ++ [12]%N)).
